@@ -24,7 +24,7 @@ import (
 // ---- session scripts (mirror of lean/KmipModel/Session.lean; line format in lean/Driver/SessionIO.lean) ----
 
 type sBeh struct {
-	kind    byte // s n e r p
+	kind    byte // s n e r p v (v: a first result together with an error; reason 0 = plain error; enc = that result is encodable)
 	payload int
 	enc     bool
 	msg     int
@@ -45,6 +45,15 @@ func (b sBeh) String() string {
 		return fmt.Sprintf("e%d", b.msg)
 	case 'r':
 		return fmt.Sprintf("r%d/%d", b.msg, b.reason)
+	case 'v':
+		rs, e := "-", 0
+		if b.reason != 0 {
+			rs = fmt.Sprint(b.reason)
+		}
+		if b.enc {
+			e = 1
+		}
+		return fmt.Sprintf("v%d/%s/%d", b.msg, rs, e)
 	default:
 		return fmt.Sprintf("p%d", b.msg)
 	}
@@ -390,6 +399,16 @@ func runSessions(runs []*sessionRun, pipelined bool, T time.Duration, r *rand.Ra
 					return nil, causedReasonErr{own, fmt.Errorf("inner")}
 				}
 				return nil, own
+			case 'v':
+				// a first result beside the error: half-filled response, pointer, typed nil or something Encode rejects
+				var val interface{} = respPayload(op, b.payload)
+				if !b.enc {
+					val = unencodables[id%len(unencodables)]()
+				}
+				if b.reason != 0 {
+					return val, reasonErr{fmt.Sprintf("m%d", b.msg), kmip.Enum(b.reason)}
+				}
+				return val, fmt.Errorf("m%d", b.msg)
 			default:
 				if id%2 == 0 {
 					panic(fmt.Sprintf("m%d", b.msg))
@@ -693,8 +712,10 @@ func genBeh(r *rand.Rand, payload int) sBeh {
 		return sBeh{kind: 'n'}
 	case x < 75:
 		return sBeh{kind: 'e', msg: r.Intn(1000)}
-	case x < 87:
+	case x < 85:
 		return sBeh{kind: 'r', msg: r.Intn(1000), reason: []int{1, 2, 4, 0xC, 0x100, 0x11}[r.Intn(6)]}
+	case x < 91:
+		return sBeh{kind: 'v', payload: payload, msg: r.Intn(1000), reason: []int{0, 0, 1, 2, 0x100}[r.Intn(5)], enc: r.Intn(2) == 0}
 	default:
 		return sBeh{kind: 'p', msg: r.Intn(1000)}
 	}
